@@ -186,6 +186,11 @@ func populate(t *testing.T, r *rand.Rand, root string, variant int) world {
 		if variant == 2 {
 			must(os.Mkdir(filepath.Join(T, "x y"), 0o700))
 			must(os.Symlink(".", filepath.Join(T, "self")))
+			// pre-existing siblings with derived names pointing outside
+			must(os.Symlink("../out/f", filepath.Join(T, "ex.partial")))
+			must(os.Symlink("../out/none2", filepath.Join(T, "n1.partial")))
+			must(os.Symlink(filepath.Join(B, "out", "d", "f"), filepath.Join(T, "f.tmp")))
+			must(os.Symlink("../../out/f", filepath.Join(T, "d", "in.partial")))
 		}
 	case 3:
 		w.kind = "file"
@@ -279,6 +284,31 @@ func readBack(archive []byte, R string) ([]string, []string, bool) {
 var modes = []int64{0, 0, 0o700, 0o755, 0o777, 0o500, 0o1777, 0o4755, 0o2750, 0o111, 0o7777, 0o1000, 0o4000755, 0o644, 0o600}
 var mtimes = []int64{0, 1, 1234567890, 1000000000, 2000000000, -1, 86400}
 
+// derivedName returns a sibling name derived from x the way temporary / backup / lock files are named.
+func derivedName(r *rand.Rand, x string) string {
+	switch r.Intn(12) {
+	case 0, 1, 2:
+		return x + ".partial"
+	case 3:
+		return x + ".tmp"
+	case 4:
+		return x + "~"
+	case 5:
+		return "." + x + ".swp"
+	case 6:
+		return x + ".part"
+	case 7:
+		return x + ".new"
+	case 8:
+		return x + ".bak"
+	case 9:
+		return ".#" + x
+	case 10:
+		return x + ".lock"
+	}
+	return "#" + x + "#"
+}
+
 func genEntries(r *rand.Rand, w world) []ent {
 	R := w.R
 	up := func(k int) string { return strings.Repeat("../", k) }
@@ -294,6 +324,40 @@ func genEntries(r *rand.Rand, w world) []ent {
 			filepath.Join(R, "B", "out", "d"), filepath.Join(R, "B", "out", "e"), filepath.Join(R, "B", "out", "f"),
 			"/nonexistent-c38/x", "a", "d", ".", "..", "", "nope", "dd", "d/in", "./d/../d",
 		}
+	}
+	if r.Intn(6) == 0 {
+		// sibling names derived from another entry's name (X.partial, X.tmp, X~, .X.swp, ...): a symlink with such a
+		// name pointing outside the target, then a regular file (or directory/symlink) entry X next to it. An
+		// extractor that stages its output under a predictable sibling name would write through the link.
+		var es []ent
+		es = append(es, ent{name: "r", typ: tar.TypeDir, mode: modes[r.Intn(len(modes))], mtime: mtimes[r.Intn(len(mtimes))]})
+		p := []string{}
+		for i := r.Intn(3); i > 0; i-- {
+			p = append(p, []string{"d", "n1", "x y"}[r.Intn(3)])
+			es = append(es, ent{name: "r/" + strings.Join(p, "/"), typ: tar.TypeDir, mode: 0o755, mtime: 1})
+		}
+		x := []string{"X", "f", "ex", "data.bin", "n2"}[r.Intn(5)]
+		dir := "r/" + strings.Join(append(append([]string{}, p...), ""), "/")
+		ts := targets(len(p) + 1)
+		nl := 1 + r.Intn(3)
+		for i := 0; i < nl; i++ {
+			es = append(es, ent{name: dir + derivedName(r, x), typ: tar.TypeSymlink, mode: 0o777, mtime: mtimes[r.Intn(len(mtimes))], link: ts[r.Intn(11)]})
+		}
+		if r.Intn(3) == 0 {
+			es = append(es, ent{name: dir + "other", typ: tar.TypeReg, mode: 0o600, mtime: 1, content: 3})
+		}
+		switch r.Intn(6) {
+		case 0:
+			es = append(es, ent{name: dir + x, typ: tar.TypeDir, mode: 0o700, mtime: 1})
+		case 1:
+			es = append(es, ent{name: dir + x, typ: tar.TypeSymlink, mode: 0o777, mtime: 1, link: "other"})
+		default:
+			es = append(es, ent{name: dir + x, typ: tar.TypeReg, mode: modes[r.Intn(len(modes))], mtime: mtimes[r.Intn(len(mtimes))], content: 42})
+		}
+		if r.Intn(3) == 0 {
+			es = append(es, ent{name: dir + x, typ: tar.TypeReg, mode: 0o640, mtime: 2, content: 43})
+		}
+		return es
 	}
 	if r.Intn(5) == 0 {
 		// the shape of finding C38-1 with random names, depths, targets and continuations: a directory with a mode,
@@ -366,6 +430,10 @@ func genEntries(r *rand.Rand, w world) []ent {
 			for j := 0; j < k; j++ {
 				p = append(p, comps[r.Intn(len(comps))])
 			}
+		}
+		if len(p) > 0 && r.Intn(6) == 0 {
+			// a sibling whose name is derived from this one
+			p = append(append([]string{}, p[:len(p)-1]...), derivedName(r, p[len(p)-1]))
 		}
 		if len(p) > 4 {
 			p = p[:4]
@@ -446,7 +514,8 @@ func TestC38(t *testing.T) {
 	st := vh.NewStats("archives of 1..10 entries (root directory/file/symlink/other first; directories, files, symlinks and unsupported " +
 		"types over a small pool of paths up to 3 deep so that names repeat with different types; symlink targets relative and absolute " +
 		"to directories/files outside the target, inside it, dangling, empty, dot and dot-dot; hostile names: absolute, empty elements, " +
-		"dot, dot-dot, other root, over-long; modes incl. 0, setuid/setgid/sticky and the 0x100000 bit; mtimes incl. 0 and negative) " +
+		"dot, dot-dot, other root, over-long; symlinks whose name is derived from a later file entry's name (X.partial, X.tmp, X~, .X.swp, ...) " +
+		"pointing outside, also pre-existing in the target; modes incl. 0, setuid/setgid/sticky and the 0x100000 bit; mtimes incl. 0 and negative) " +
 		"extracted by the real Extractor into a fresh / pre-populated (files, directories, symlinks to outside, dangling, self) / file / " +
 		"symlink / nested target, with lstat snapshots (type, mode, mtime, link target, content) of the whole base directory before and after. " +
 		"non-trivial = >= 3 entries with a directory and a symlink; distinct by (target kind, entries)")
@@ -461,6 +530,13 @@ func TestC38(t *testing.T) {
 		variant int
 		es      func(w world) []ent
 	}{
+		// a symlink named like a staging file of the next entry, pointing to an outside file / nowhere / absolute
+		{0, func(w world) []ent { return []ent{D("r", 0o755), L("r/X.partial", "../out/f"), F("r/X", 0o600, 9)} }},
+		{0, func(w world) []ent { return []ent{D("r", 0o755), L("r/X.partial", "../out/created"), F("r/X", 0o4755, 9)} }},
+		{0, func(w world) []ent {
+			return []ent{D("r", 0o755), D("r/d", 0o755), L("r/d/X.partial", filepath.Join(w.R, "B", "out", "d", "f")), L("r/d/X.tmp", "../../out/f"), F("r/d/X", 0o644, 9)}
+		}},
+		{2, func(w world) []ent { return []ent{D("r", 0o755), F("r/ex", 0o644, 9), F("r/n1", 0o644, 10), F("r/f", 0o600, 11), F("r/d/in", 0o600, 12)} }},
 		// witness of finding C38-1: directory with a mode, then a symlink of the same name to an outside directory
 		{0, func(w world) []ent { return []ent{D("r", 0o755), D("r/d", 0o700), L("r/d", "../out/d")} }},
 		// the same through the early application in deferUpdate (a shorter path follows)
